@@ -42,7 +42,9 @@ type funcContract struct {
 	atstores      []*atstore // `atstore pkg.T.f requires e`: obligation at every store to that field in this function (`value` = stored value)
 	preserves     []string   // parameters whose referent is assumed untouched by heap-writing callees (tree shape)
 	abstractFloat bool       // float64 + - * / as uninterpreted functions (congruence only)
-	splitReturns  bool       // one postcondition obligation per return statement instead of one over the merged exit state
+	atifs         []*atif     // `atif "cond" iff e`: the branch condition with that source text is equivalent to e where it is evaluated
+	loopCalls     []*loopCall // `loop N calls callee#k`
+	splitReturns  bool      // one postcondition obligation per return statement instead of one over the merged exit state
 	opaqueArith   bool      // integer arithmetic results as declared constants with defining equations (helps quantifier triggers)
 	preciseAppend bool       // generate quantified content facts for append (needed only by functional contracts on slices)
 	decrGroup     string     // recursion group of the measure: only calls within one group are compared
@@ -82,12 +84,38 @@ func (fc *funcContract) taggedFor(p string) bool {
 			return true
 		}
 	}
+	for _, ai := range fc.atifs {
+		if tagProp(ai.cl.tag) == p {
+			return true
+		}
+	}
+	for _, lc := range fc.loopCalls {
+		if tagProp(lc.tag) == p {
+			return true
+		}
+	}
 	return false
 }
 
 // atstore: an in-body assertion anchored on a field (not on a line number): at every store to field in the function
 // under verification, expr must hold in the state of the store; `value` names the stored value and the caller's
 // locals are visible under their source names (closest dominating definition).
+// atif: an in-body assertion anchored on the source text of a branch condition
+type atif struct {
+	cond string
+	cl   *clause
+	when *clause // optional guard
+	seen bool
+}
+
+// loopCall: every completed iteration of loop N has executed the k-th call (in generation order) to callee
+type loopCall struct {
+	loop int
+	call string // callee#k
+	tag  string
+	seen bool
+}
+
 type atstore struct {
 	field string
 	cl    *clause
@@ -141,7 +169,7 @@ func (c *contracts) get(key string) *funcContract { return c.funcs[key] }
 var clauseKeywords = map[string]bool{"func": true, "pred": true, "spec": true, "requires": true, "ensures": true, "assigns": true,
 	"loop": true, "panics": true, "inline": true, "trusted": true, "noreturn": true, "props": true, "pure": true,
 	"field": true, "evaltype": true, "frameroot": true, "freshresult": true, "globalroot": true,
-	"implements": true, "recovers": true, "decreases": true, "funcfield": true, "precise-append": true, "nonnil": true, "preserves": true, "atcall": true, "atstore": true, "opaque-arith": true, "split-returns": true, "abstract-float": true, "fieldrange": true}
+	"implements": true, "recovers": true, "decreases": true, "funcfield": true, "precise-append": true, "nonnil": true, "preserves": true, "atcall": true, "atstore": true, "opaque-arith": true, "split-returns": true, "atif": true, "abstract-float": true, "fieldrange": true}
 
 func loadContractFile(c *contracts, path string, pkgpath string) error {
 	data, err := os.ReadFile(path)
@@ -191,7 +219,7 @@ func loadContractFile(c *contracts, path string, pkgpath string) error {
 	for _, r := range raws {
 		kw, rest := splitKw(r.text)
 		tag := ""
-		if strings.HasPrefix(rest, "[") && (kw == "ensures" || kw == "requires" || kw == "decreases" || kw == "atcall" || kw == "atstore") {
+		if strings.HasPrefix(rest, "[") && (kw == "ensures" || kw == "requires" || kw == "decreases" || kw == "atcall" || kw == "atstore" || kw == "atif") {
 			k := strings.Index(rest, "]")
 			tag = rest[1:k]
 			rest = strings.TrimSpace(rest[k+1:])
@@ -262,6 +290,11 @@ func loadContractFile(c *contracts, path string, pkgpath string) error {
 					body = strings.TrimSpace(body[k+1:])
 				}
 			}
+			if f[1] == "calls" {
+				// loop N calls callee#k : every iteration that reaches a back edge has made that call
+				cur.loopCalls = append(cur.loopCalls, &loopCall{loop: n, call: strings.TrimSpace(body), tag: tag})
+				continue
+			}
 			cl, err := mk(f[1], n, body)
 			if err != nil {
 				return err
@@ -282,6 +315,39 @@ func loadContractFile(c *contracts, path string, pkgpath string) error {
 			cur.opaqueArith = true
 		case "split-returns":
 			cur.splitReturns = true
+		case "atif":
+			// atif[tag] "<source text of the condition>" iff <expr>
+			if cur == nil || !strings.HasPrefix(rest, "\"") {
+				return fmt.Errorf("%s:%d: bad atif clause (atif \"cond text\" iff expr)", path, r.line)
+			}
+			k := strings.Index(rest[1:], "\"")
+			if k < 0 {
+				return fmt.Errorf("%s:%d: bad atif clause (unterminated condition text)", path, r.line)
+			}
+			text := rest[1 : k+1]
+			body := strings.TrimSpace(rest[k+2:])
+			// optional guard:  atif "cond" when G iff E   (obligation: G ==> (cond <==> E))
+			var when *clause
+			if strings.HasPrefix(body, "when ") {
+				k := strings.Index(body, " iff ")
+				if k < 0 {
+					return fmt.Errorf("%s:%d: bad atif clause (when without iff)", path, r.line)
+				}
+				w, err := mk("atif", -1, strings.TrimSpace(body[5:k]))
+				if err != nil {
+					return err
+				}
+				when = w
+				body = strings.TrimSpace(body[k+1:])
+			}
+			if !strings.HasPrefix(body, "iff ") {
+				return fmt.Errorf("%s:%d: bad atif clause (missing iff)", path, r.line)
+			}
+			cl, err := mk("atif", -1, strings.TrimSpace(body[4:]))
+			if err != nil {
+				return err
+			}
+			cur.atifs = append(cur.atifs, &atif{cond: text, cl: cl, when: when})
 		case "atcall":
 			// atcall <callee>#<k> requires <expr>
 			f := strings.Fields(rest)
